@@ -424,7 +424,7 @@ def run_pipeline(item, tl, mutate=None):
         paths = sym_paths(run, A, tl, max_paths=32)
     except NotEncodable as e:
         return [ob("loss gradient reaches every encoder parameter", config, "error", what=f"NotEncodable: {e}")]
-    st_g, viol, reach = "holds", None, [False] * 4
+    st_g, viol, reach, unknown_reach = "holds", None, [False] * 4, [False] * 4
     for ctx, R in paths:
         defined = list(ctx.defined)
         if getattr(ctx, "tainted", False) and st_g == "holds":
@@ -452,6 +452,8 @@ def run_pipeline(item, tl, mutate=None):
                 if not z3.is_false(e):
                     s2, _ = decide_nra_sliced(ctx, e, defined, budget_s=20)
                     reach[k] = s2 == "violated"     # 'violated' of the negation = a point with non-zero gradient exists
+                    if s2 == "inconclusive":
+                        unknown_reach[k] = True
     obs = []
     stretch = True
     if viol:
@@ -460,7 +462,7 @@ def run_pipeline(item, tl, mutate=None):
         obs.append(ob("loss gradient = derivative through constraint and channel", config, st_g, stretch=stretch and st_g != "holds", sample=dict(query="exists W, draws: autograd dL/dW[k] != dL/dW[k] of the computed loss", W="2x2 symbolic", x=X_IN), **tl.take()))
     if all(reach):
         obs.append(ob("loss gradient reaches every encoder parameter", config, "holds", sample=dict(query="for each k: exists W, draws with autograd dL/dW[k] != 0 (sat expected)", reached=reach)))
-    elif viol is None and st_g == "holds":
+    elif viol is None and st_g == "holds" and not any(u and not r for u, r in zip(unknown_reach, reach)):
         w = {n: 1.0 for n in wn}
         w["draws"] = []
         obs.append(ob("loss gradient reaches every encoder parameter", config, "violated", what=f"autograd's dL/dW is identically zero for parameters {[k for k in range(4) if not reach[k]]}",
